@@ -294,16 +294,24 @@ def context_semantics(check: Check) -> None:
     bad: dict[str, str] = {}
     cases = 0
 
-    def run_context(obj: MObj, named: tuple[str, ...], tag: str, body, same: bool = False) -> tuple[str, str | None]:
-        """Interpret context(**{n: new(n)}) on obj; `body(obj)` runs at the yield and may raise Raised. Returns (outcome, class)."""
-        state = {"yields": 0}
+    def run_context(obj: MObj, named: tuple[str, ...], tag: str, body, same: bool = False, fail_at: int = 0) -> tuple[str, str | None]:
+        """Interpret context(**{n: new(n)}) on obj; `body(obj)` runs at the yield and may raise Raised. Returns (outcome, class).
+        `fail_at` = k > 0: the k-th assignment of a setting made through setattr() is refused with ValueError (a validating `__setattr__`)."""
+        state = {"yields": 0, "sets": 0}
+
+        def refusing_setattr(ex_, e, args):
+            state["sets"] += 1
+            if fail_at and state["sets"] == fail_at:
+                raise Raised("ValueError", e)
+            return NotImplemented
 
         def on_yield(ex_, e, value, env):
             state["yields"] += 1
             body(obj)
             return None
 
-        ex = AbsExec(fn.qualname, {"yield": on_yield}, helpers={k: v for k, v in fn.cls.methods.items() if k != fn.name} if fn.cls is not None else None)
+        ex = AbsExec(fn.qualname, {"yield": on_yield, "builtin:setattr": refusing_setattr},
+                     helpers={k: v for k, v in fn.cls.methods.items() if k != fn.name} if fn.cls is not None else None)
         env = {"self": obj}
         for prm in params:
             env[prm] = (("old", attr_of[prm]) if same else ("new", tag, prm)) if prm in named else None
@@ -378,6 +386,20 @@ def context_semantics(check: Check) -> None:
                 if extra:
                     note("extra", f"{what}: leaves new attributes {sorted(extra)} on the settings object")
         initial_none[0] = False
+        # a settings class that validates what it is assigned (`__setattr__`, a raising property setter) can refuse a requested value while the
+        # context is being entered: the settings already applied must not stay behind
+        validating = fn.cls is not None and ("__setattr__" in fn.cls.methods or any(
+            any(isinstance(x, ast.Raise) for x in ast.walk(st.node)) for st in fn.cls.setters.values()))
+        if validating:
+            for named in [c for c in subsets if len(c) == 2][:6]:
+                for k in (1, 2):
+                    cases += 1
+                    obj = fresh()
+                    outcome, cls = run_context(obj, named, "c1", lambda o: None, False, fail_at=k)
+                    if outcome == "raise-before-yield" and obj.fields != {a: old(a) for a in attrs}:
+                        left = {a: v for a, v in obj.fields.items() if v != old(a)}
+                        note("not-restored:exc", f"context({', '.join(named)}) whose {k}. value is refused with {cls} while the context is entered: the with-statement is left by "
+                                                 f"the exception, but {sorted(left)} keep the temporary value(s)")
         # nesting: an inner context inside the body of an outer one, inner left by an exception that the outer body lets through / handles
         pairs = [((params[0],), (params[0],)), ((params[0], params[1]), (params[1],)), ((params[0],), (params[1],)), ((), (params[0],))]
         for outer, inner in pairs:
